@@ -195,3 +195,45 @@ def inlined_view(repo: Repo, modname: str, *checker_files: str, extra: Iterable[
         if name in words:
             protected.add(name)
     return repo.use_inlined(modname, protected)
+
+
+def copy_completeness(chk, rule: str) -> int:
+    """Every explicit re-construction `K(f=x.f, …)` of a state record from an instance of the same class inside the
+    state module's copy methods passes *all* fields of K (a field left out silently falls back to its default in every
+    copy the reducer takes, i.e. on every tick).  `dataclasses.replace(x)` / `x._deepcopy()` copy everything by
+    construction.  Returns the number of copy constructions examined."""
+    repo = chk.repo
+    m = repo.module(STATE)
+    sites = 0
+    for qn, fn in m.functions.items():
+        if qn.split(".")[-1] not in ("deepcopy", "_deepcopy", "copy", "__copy__", "__deepcopy__"):
+            continue
+        for c in ast.walk(fn):
+            if not (isinstance(c, ast.Call) and isinstance(c.func, ast.Name)):
+                continue
+            ref = repo.resolve_dotted(m, c.func.id)
+            if ":" not in ref:
+                continue
+            try:
+                km, kc = repo.cls(ref)
+            except AnchorError:
+                continue
+            fields = [s_.target.id for s_ in kc.body if isinstance(s_, ast.AnnAssign) and isinstance(s_.target, ast.Name) and "ClassVar" not in ast.unparse(s_.annotation)]
+            if not fields:
+                continue
+            passed = {k.arg for k in c.keywords if k.arg} | set(fields[:len(c.args)])
+            # a copy construction: some field is fed from the same-named attribute of one source object
+            srcs = set()
+            for k in c.keywords:
+                for x in ast.walk(k.value):
+                    if isinstance(x, ast.Attribute) and x.attr == k.arg and isinstance(x.value, ast.Name):
+                        srcs.add(x.value.id)
+            if not srcs:
+                continue
+            sites += 1
+            missing = [f for f in fields if f not in passed]
+            chk.ob(rule, f"{qn}: the copy `{c.func.id}(…)` built from `{sorted(srcs)[0]}` carries every field of {c.func.id}", not missing, m=m, node=c, fn=fn,
+                   instance=f"copy-complete:{qn}:{c.func.id}",
+                   reason=f"fields {missing} are not copied: every state copy (one per tick) resets them to their defaults — a queued retry loses its attempt count / first-attempt time, "
+                          f"so the policy is asked for the first-retry delay again and budgets restart")
+    return sites
